@@ -77,8 +77,7 @@ def handleDist : List String → Option String
   | "chk" :: "c18.bucket" :: _tag :: b :: n :: rest => do
       let b ← parseNat b; let n ← parseNat n
       let us ← natList (rest.take n); let amts ← natList (rest.drop n)
-      let U := us.foldl (· + ·) 0
-      some (toString (decide (amts.length = us.length) && (U == 0 || (List.zip us amts).all (fun (u, a) => fairOne (b : Rat) U u a))))
+      some (toString (fairBucket b us amts))
   | _ => none
 
 end Sif.Drv
